@@ -467,6 +467,7 @@ type raceCase struct {
 	Max     int   `json:"max"`
 	Targets []int `json:"targets"` // per goroutine: seat id or -1 = any
 	Pre     []int `json:"pre"`     // seats occupied before the race
+	Leaves  []int `json:"leaves,omitempty"` // per further goroutine: the seat it tries to leave during the race
 }
 
 func runRace(c *raceCase) *vlib.Violation {
@@ -499,8 +500,26 @@ func runRace(c *raceCase) *vlib.Violation {
 			res[i], errs[i] = m.Join(c.Targets[i], fmt.Sprintf("g%d", i))
 		}(i)
 	}
+	lerrs := make([]error, len(c.Leaves))
+	lpans := make([]interface{}, len(c.Leaves))
+	for i := range c.Leaves {
+		wg.Add(1)
+		go func(i int) {
+			defer wg.Done()
+			defer func() {
+				if e := recover(); e != nil {
+					lpans[i] = e
+				}
+			}()
+			<-start
+			lerrs[i] = m.Leave(c.Leaves[i])
+		}(i)
+	}
 	close(start)
 	wg.Wait()
+	if len(c.Leaves) > 0 {
+		return judgeRaceWithLeaves(c, m, res, errs, pans, lerrs, lpans)
+	}
 	seen := map[int]int{}
 	ok := 0
 	for i := 0; i < g; i++ {
@@ -547,6 +566,70 @@ func runRace(c *raceCase) *vlib.Violation {
 	return nil
 }
 
+// judgeRaceWithLeaves: joins and leaves raced. Whatever order the calls took
+// effect in, every seat ends up holding (players before + successful joins -
+// successful leaves) players, which is 0 or 1 and what the seat list shows; the
+// player count is the sum.
+func judgeRaceWithLeaves(c *raceCase, m *sm.SeatManager, res []int, errs []error, pans []interface{}, lerrs []error, lpans []interface{}) *vlib.Violation {
+	bal := make([]int, c.Max)
+	preSeen := map[int]bool{}
+	for _, s := range c.Pre {
+		if s >= 0 && s < c.Max && !preSeen[s] {
+			preSeen[s] = true
+			bal[s]++
+		}
+	}
+	joins, leaves := 0, 0
+	for i := range c.Targets {
+		if pans[i] != nil {
+			return vlib.V("C18", "race/panic", "concurrent Join panicked: %v", pans[i])
+		}
+		if errs[i] != nil {
+			continue
+		}
+		if res[i] < 0 || res[i] >= c.Max {
+			return vlib.V("C18", "race/wrong-seat", "Join(%d) returned seat %d of %d", c.Targets[i], res[i], c.Max)
+		}
+		if c.Targets[i] >= 0 && res[i] != c.Targets[i] {
+			return vlib.V("C18", "race/wrong-seat", "Join(%d) returned %d", c.Targets[i], res[i])
+		}
+		bal[res[i]]++
+		joins++
+	}
+	for i, s := range c.Leaves {
+		if lpans[i] != nil {
+			return vlib.V("C18", "race/panic", "concurrent Leave panicked: %v", lpans[i])
+		}
+		if lerrs[i] != nil {
+			continue
+		}
+		if s < 0 || s >= c.Max {
+			return vlib.V("C18", "race/leave-of-missing-seat", "Leave(%d) succeeded on a table of %d seats", s, c.Max)
+		}
+		bal[s]--
+		leaves++
+	}
+	total := 0
+	seats := m.GetSeats()
+	for s := 0; s < c.Max; s++ {
+		if bal[s] < 0 || bal[s] > 1 {
+			return vlib.V("C18", "race/joins-minus-leaves", "max=%d seat %d: players before the race + successful joins - successful leaves = %d (joins %d, leaves %d in all)", c.Max, s, bal[s], joins, leaves)
+		}
+		occ := 0
+		if st := seats[s]; st != nil && st.Player != nil {
+			occ = 1
+		}
+		if occ != bal[s] {
+			return vlib.V("C18", "race/occupancy", "max=%d seat %d: holds %d player(s), joins minus leaves says %d", c.Max, s, occ, bal[s])
+		}
+		total += bal[s]
+	}
+	if got := m.GetPlayerCount(); got != total {
+		return vlib.V("C18", "race/player-count", "max=%d: GetPlayerCount()=%d, players before + joins - leaves = %d", c.Max, got, total)
+	}
+	return nil
+}
+
 func TestJoinRace(t *testing.T) {
 	st := vlib.NewStats("join-race")
 	vlib.RunRapid(t, "seats-race", "race", st, func(rt *rapid.T) vlib.Outcome {
@@ -563,6 +646,22 @@ func TestJoinRace(t *testing.T) {
 		npre := rapid.IntRange(0, c.Max/2).Draw(rt, "pre")
 		for i := 0; i < npre; i++ {
 			c.Pre = append(c.Pre, rapid.IntRange(0, c.Max-1).Draw(rt, "preSeat"))
+		}
+		if rapid.IntRange(0, 2).Draw(rt, "withLeaves") == 1 {
+			// leaves race with the joins: several goroutines may try to leave the same seat
+			nl := rapid.IntRange(1, 12).Draw(rt, "leavers")
+			hot := rapid.IntRange(0, c.Max-1).Draw(rt, "hotSeat")
+			for i := 0; i < nl; i++ {
+				if rapid.Bool().Draw(rt, "sameSeat") {
+					c.Leaves = append(c.Leaves, hot)
+				} else {
+					c.Leaves = append(c.Leaves, rapid.IntRange(-1, c.Max).Draw(rt, "leaveSeat"))
+				}
+			}
+			if npre == 0 || rapid.Bool().Draw(rt, "hotSeatTaken") {
+				c.Pre = append(c.Pre, hot)
+			}
+			st.Class("racing-leaves")
 		}
 		st.Evaluations++
 		if g > c.Max-npre {
